@@ -119,6 +119,10 @@ fn shape_hash(s: &Scenario) -> u64 {
             Step::OvDrop { id } => 4 + *id as u64 * 16,
             Step::Rollback { n } => 5 + *n as u64 * 16,
             Step::Reopen { opts } => 6 + opts.commit_concurrency as u64 * 16,
+            Step::Prepare { id, batch } => 7 + (batch.items.len() as u64) * 16 + *id as u64 * 4096,
+            Step::CommitPrepared { id, nonblocking } => 8 + *id as u64 * 16 + *nonblocking as u64 * 7,
+            Step::DropPrepared { id } => 9 + *id as u64 * 16,
+            Step::TryWhileSession { id, overlay } => 10 + *id as u64 * 16 + *overlay as u64 * 5,
         };
         h = mix(h ^ x);
     }
@@ -134,6 +138,10 @@ fn step_name(st: &Step) -> String {
         Step::OvDrop { id } => format!("drop overlay#{id}"),
         Step::Rollback { n } => format!("rollback({n})"),
         Step::Reopen { opts } => format!("reopen(cc={}, io={}, pc={}MiB)", opts.commit_concurrency, opts.io_workers, opts.page_cache_mb),
+        Step::Prepare { id, batch } => format!("prepare changeset#{id} ({} items)", batch.items.len()),
+        Step::CommitPrepared { id, nonblocking } => format!("commit changeset#{id}{}", if *nonblocking { " nonblocking" } else { "" }),
+        Step::DropPrepared { id } => format!("drop changeset#{id}"),
+        Step::TryWhileSession { id, overlay } => format!("try_commit_nonblocking({}#{id}) while a session is alive", if *overlay { "overlay" } else { "changeset" }),
     }
 }
 
@@ -173,7 +181,8 @@ pub fn check(prop: &str, tier: Tier, args: &[String]) -> i32 {
             let i = next.fetch_add(1, Ordering::SeqCst);
             if i >= n_runs || t0.elapsed() > budget { break; }
             if agg.lock().unwrap().violations.len() >= 8 { break; }
-            let run_seed = mix(seed.wrapping_mul(0x9E3779B97F4A7C15) ^ mix(i));
+            // C13: eight consecutive runs share one history and differ in configuration / schedule
+            let run_seed = if prop == "C13" { (mix(seed.wrapping_mul(0x9E3779B97F4A7C15) ^ mix(i / 8)) & !7) | (i % 8) } else { mix(seed.wrapping_mul(0x9E3779B97F4A7C15) ^ mix(i)) };
             let scen = crate::props::make(&prop, tier, run_seed);
             match run_scenario_child(&scen, &format!("{i}"), run_timeout) {
                 ChildOut::Report(r) => add(&mut agg.lock().unwrap(), &prop, run_seed, &scen, &r),
@@ -294,12 +303,12 @@ pub fn minimise(orig: &Scenario, v: &Violation, deadline: Instant) -> (Scenario,
     for si in 0..cur.steps.len() {
         loop {
             if !alive(deadline) { break; }
-            let n = match &cur.steps[si] { Step::Commit { batch, .. } | Step::OvBuild { batch, .. } => batch.items.len(), _ => 0 };
+            let n = match &cur.steps[si] { Step::Commit { batch, .. } | Step::OvBuild { batch, .. } | Step::Prepare { batch, .. } => batch.items.len(), _ => 0 };
             if n <= 1 { break; }
             let mut progressed = false;
             for half in 0..2 {
                 let mut c = cur.clone();
-                if let Step::Commit { batch, .. } | Step::OvBuild { batch, .. } = &mut c.steps[si] {
+                if let Step::Commit { batch, .. } | Step::OvBuild { batch, .. } | Step::Prepare { batch, .. } = &mut c.steps[si] {
                     let keep: Vec<_> = if half == 0 { batch.items[..n / 2].to_vec() } else { batch.items[n / 2..].to_vec() };
                     batch.items = keep;
                 }
@@ -308,27 +317,27 @@ pub fn minimise(orig: &Scenario, v: &Violation, deadline: Instant) -> (Scenario,
             }
             if !progressed { break; }
         }
-        let n = match &cur.steps[si] { Step::Commit { batch, .. } | Step::OvBuild { batch, .. } => batch.items.len(), _ => 0 };
+        let n = match &cur.steps[si] { Step::Commit { batch, .. } | Step::OvBuild { batch, .. } | Step::Prepare { batch, .. } => batch.items.len(), _ => 0 };
         if n <= 12 {
             let mut j = n;
             while j > 0 && alive(deadline) {
                 j -= 1;
                 let mut c = cur.clone();
-                if let Step::Commit { batch, .. } | Step::OvBuild { batch, .. } = &mut c.steps[si] { if batch.items.len() > 1 { batch.items.remove(j); } else { continue; } }
+                if let Step::Commit { batch, .. } | Step::OvBuild { batch, .. } | Step::Prepare { batch, .. } = &mut c.steps[si] { if batch.items.len() > 1 { batch.items.remove(j); } else { continue; } }
                 tried += 1;
                 if let Some(c) = try_scen(&c, v, 2, timeout) { cur = c; }
             }
         }
         if !alive(deadline) { break; }
         let mut c = cur.clone();
-        if let Step::Commit { batch, .. } | Step::OvBuild { batch, .. } = &mut c.steps[si] { batch.warm.clear(); batch.preserve.clear(); batch.reads.clear(); batch.proves.clear(); }
+        if let Step::Commit { batch, .. } | Step::OvBuild { batch, .. } | Step::Prepare { batch, .. } = &mut c.steps[si] { batch.warm.clear(); batch.preserve.clear(); batch.reads.clear(); batch.proves.clear(); }
         if c != cur { tried += 1; if let Some(c) = try_scen(&c, v, 2, timeout) { cur = c; } }
     }
     // 5. simpler configuration
     let simpl: Vec<Box<dyn Fn(&mut Scenario)>> = vec![
         Box::new(|s| s.opts.commit_concurrency = 1), Box::new(|s| s.opts.io_workers = 1), Box::new(|s| s.opts.warm_up = false),
         Box::new(|s| s.opts.prepopulate = false), Box::new(|s| s.sched = Sched::Random), Box::new(|s| s.probes.clear()),
-        Box::new(|s| { for st in s.steps.iter_mut() { if let Step::Commit { batch, .. } | Step::OvBuild { batch, .. } = st { for (_, a) in batch.items.iter_mut() { if let Act::Write(Some(v)) | Act::Rtw(Some(v)) = a { if v.len > 64 { v.len = 8; } } } } } }),
+        Box::new(|s| { for st in s.steps.iter_mut() { if let Step::Commit { batch, .. } | Step::OvBuild { batch, .. } | Step::Prepare { batch, .. } = st { for (_, a) in batch.items.iter_mut() { if let Act::Write(Some(v)) | Act::Rtw(Some(v)) = a { if v.len > 64 { v.len = 8; } } } } } }),
     ];
     for f in simpl { if !alive(deadline) { break; } let mut c = cur.clone(); f(&mut c); if c != cur { tried += 1; if let Some(c) = try_scen(&c, v, 3, timeout) { cur = c; } } }
     (cur, tried)
